@@ -577,4 +577,14 @@ Proof.
   unfold init_world. eapply RJ_trans; [apply RJ_rm_call|]. apply RJ_fold. intros. apply RJ_init_dev.
 Qed.
 
+(** a device constructed between two events *)
+Lemma RJ_late_create fuel w d ups : RJ w (late_create fuel nw w d ups).
+Proof.
+  unfold late_create. match goal with |- RJ _ (if ?c then _ else _) => destruct c end; [Jt|].
+  set (w0 := w <| f_next_id := f_next_id w + 1 |>).
+  apply (RJ_trans w w0); [apply RJ_same; reflexivity|].
+  apply (RJ_trans w0 (updd w0 d t_live)); [apply (RJ_dev w0 d (fun _ => True)); [apply psafe_conv; intros y N; exact N|exact I]|].
+  eapply RJ_trans; [apply RJ_init_dev|apply RJ_rewire].
+Qed.
+
 End Wake.
